@@ -4,6 +4,7 @@ import Driver.Misc
 import Driver.Json
 import Driver.Promela
 import Driver.Lua
+import Driver.DelayQ
 open Driver
 
 partial def loop (h : IO.FS.Stream) (out : IO.FS.Stream) (f : String → String) : IO Unit := do
@@ -17,6 +18,7 @@ def commands : List (String × (String → String)) := [
   ("namematch", namematch),
   ("trace", trace),
   ("api", api),
+  ("dq", dq),
   ("legal", legal),
   ("nest", nest),
   ("tables", tables),
